@@ -794,8 +794,6 @@ impl<'t, 'c> Gen<'t, 'c> {
                         let e = self.num_expr(other, depth.min(1));
                         match e {
                             Expr::Load(_) => Expr::Paren(Box::new(e)),
-                            // known finding zero-arg-function-as-argument: parenthesise
-                            Expr::Call(_, ref a) if a.is_empty() => Expr::Paren(Box::new(e)),
                             o => o,
                         }
                     }
@@ -803,7 +801,6 @@ impl<'t, 'c> Gen<'t, 'c> {
                         let e = self.num_expr(ty, depth.min(1));
                         match e {
                             Expr::Load(_) => Expr::Paren(Box::new(e)),
-                            Expr::Call(_, ref a) if a.is_empty() => Expr::Paren(Box::new(e)),
                             o => o,
                         }
                     }
@@ -819,9 +816,7 @@ impl<'t, 'c> Gen<'t, 'c> {
     }
 
     fn fn_call(&mut self, want: Ty, depth: usize) -> Option<Expr> {
-        // known finding zero-arg-function-as-argument: no parameterless function anywhere inside an argument list
-        let in_args = self.in_args > 0;
-        let cands: Vec<usize> = self.callable.iter().cloned().filter(|p| self.prog.procs[*p].ret.map(|t| t.is_numeric()).unwrap_or(false) && !(in_args && self.prog.procs[*p].params.is_empty())).collect();
+        let cands: Vec<usize> = self.callable.iter().cloned().filter(|p| self.prog.procs[*p].ret.map(|t| t.is_numeric()).unwrap_or(false)).collect();
         if cands.is_empty() {
             return None;
         }
